@@ -161,7 +161,7 @@ def check(run, replay=None):
     run.rule = ("operation windows (reset counters .. write profile) for Paillier encrypt/decrypt/decrypt_fast/mul/add/n-th root "
                 "(keys of one size class incl. p<q and p>q; m in {0,1,2^200,N-1,random}; r in {1,2,N-1,random}), eval_pprf "
                 "(choice bits all-zero/all-one/random), OT-extension sender, RVOLE sender/receiver (a in {0,1,q-1,random}); "
-                "non-trivial = windows compared against variant 0 of the same operation")
+                "non-trivial = windows compared against variant 0 of the same operation Variants also carry structured secret seed values (0^256 / 1^256 at known leaves) and structured secret randomness (first draw above the group order / zero).")
     run.samples = [l for l in plan if l][:6]
     run.extra["active_functions_per_op"] = active
     run.extra["sites_compared_with_skeleton"] = compared
